@@ -144,7 +144,7 @@ fn emit_history(out: &mut Out, mode: &str, label: Value, ops: &[Done]) {
             };
             per_key.entry(s.key.clone()).or_default().push(json!({
                 "id": d.id, "c": d.c, "kind": s.kind, "path": d.call.path, "arg": s.arg, "argn": s.argn, "num": s.num,
-                "res": res, "resn": resn, "inv": d.inv, "ret": d.ret, "opt": d.replies.is_none()}));
+                "res": res, "err": res.starts_with("error"), "resn": resn, "inv": d.inv, "ret": d.ret, "opt": d.replies.is_none()}));
         }
     }
     let keys: Vec<Value> = per_key.iter().map(|(k, ops)| json!({"key": k, "ops": ops})).collect();
@@ -302,7 +302,11 @@ fn random_call(rng: &mut impl Rng, regs: &[String], ctrs: &[String], serial: &At
     }
 }
 
-fn free_one(rt: &tokio::runtime::Runtime, seed: u64, clients: usize, nops: usize, nkeys: usize, out: &mut Out) {
+fn hung(ops: &[Done]) -> bool {
+    ops.iter().any(|d| matches!(&d.replies, Some(rs) if rs.iter().any(|r| matches!(r, RespValue::Error(e) if e.contains("never completed") || e.contains("HANG")))))
+}
+
+fn free_one(rt: &tokio::runtime::Runtime, seed: u64, clients: usize, nops: usize, nkeys: usize, out: &mut Out) -> bool {
     let shards = 4;
     let names = key_names(nkeys + 1, shards);
     let regs: Vec<String> = names[..nkeys].to_vec();
@@ -332,7 +336,11 @@ fn free_one(rt: &tokio::runtime::Runtime, seed: u64, clients: usize, nops: usize
                             _ = tokio::task::yield_now() => None,
                         }
                     } else {
-                        Some(fut.await)
+                        // a call that never returns (lost reply / lost wake-up) is recorded as such
+                        match tokio::time::timeout(std::time::Duration::from_secs(5), fut).await {
+                            Ok(r) => Some(r),
+                            Err(_) => Some(vec![RespValue::err("HARNESS never completed"); call.subs.len()]),
+                        }
                     };
                     let ret = if replies.is_some() { ticket.fetch_add(1, Ordering::SeqCst) } else { INF };
                     done.lock().unwrap().push(Done { id: 0, c: c + 1, call, inv, ret, replies });
@@ -352,6 +360,7 @@ fn free_one(rt: &tokio::runtime::Runtime, seed: u64, clients: usize, nops: usize
         d.id = i + 1;
     }
     emit_history(out, "free", json!({"seed": seed, "clients": clients, "ops": nops}), &ops);
+    hung(&ops)
 }
 
 // ---------------------------------------------------------------------------
@@ -367,7 +376,7 @@ fn argv_of(s: &Sub) -> Argv {
     }
 }
 
-fn conn_one(rt: &tokio::runtime::Runtime, seed: u64, clients: usize, nops: usize, nkeys: usize, out: &mut Out) {
+fn conn_one(rt: &tokio::runtime::Runtime, seed: u64, clients: usize, nops: usize, nkeys: usize, out: &mut Out) -> bool {
     let shards = 4;
     let names = key_names(nkeys + 1, shards);
     let regs: Vec<String> = names[..nkeys].to_vec();
@@ -420,6 +429,7 @@ fn conn_one(rt: &tokio::runtime::Runtime, seed: u64, clients: usize, nops: usize
         d.id = i + 1;
     }
     emit_history(out, "connection", json!({"seed": seed, "clients": clients, "ops": nops}), &ops);
+    hung(&ops)
 }
 
 pub fn main(args: &[String]) -> i32 {
@@ -437,15 +447,27 @@ pub fn main(args: &[String]) -> i32 {
         Some("free") => {
             let rt = tokio::runtime::Builder::new_multi_thread().worker_threads(a.usize("threads", 4)).enable_all().build().unwrap();
             let seed = a.u64("seed", 1);
+            let mut hangs = 0;
             for i in 0..a.usize("n", 100) {
-                free_one(&rt, seed * 100_000 + i as u64, a.usize("clients", 4), a.usize("ops", 5), a.usize("keys", 2), &mut out);
+                if free_one(&rt, seed * 100_000 + i as u64, a.usize("clients", 4), a.usize("ops", 5), a.usize("keys", 2), &mut out) {
+                    hangs += 1;
+                    if hangs >= 3 {
+                        break; // every such history is a violation already; waiting out more time-outs adds nothing
+                    }
+                }
             }
         }
         Some("conn") => {
             let rt = tokio::runtime::Builder::new_multi_thread().worker_threads(a.usize("threads", 4)).enable_all().build().unwrap();
             let seed = a.u64("seed", 1);
+            let mut hangs = 0;
             for i in 0..a.usize("n", 100) {
-                conn_one(&rt, seed * 100_000 + i as u64, a.usize("clients", 3), a.usize("ops", 8), a.usize("keys", 2), &mut out);
+                if conn_one(&rt, seed * 100_000 + i as u64, a.usize("clients", 3), a.usize("ops", 8), a.usize("keys", 2), &mut out) {
+                    hangs += 1;
+                    if hangs >= 3 {
+                        break;
+                    }
+                }
             }
         }
         _ => {
